@@ -5,6 +5,7 @@ import (
 	"go/ast"
 	"go/token"
 	"go/types"
+	"sort"
 
 	"sopverif/eng"
 )
@@ -491,6 +492,7 @@ func runC16(c *eng.Ctx) {
 	// ---- R9 validator / applier agreement
 	r9 := c.Rule("C16.R9", "F:table agreement", "every (action, required non-nil field) that an applying arm depends on is enforced by ValidateMetricOperation: an operation that passes validation is applied by some arm (no error or silent skip after part of the batch was applied)", 6)
 	runC16R9(c, r9)
+	runC16R9Actions(c, r9)
 
 	// ---- R7
 	r7 := c.Rule("C16.R7", "A:lockset", "guarded-by: Const{Counter,Gauge}Collector.collection (mtx), GroupedVault.collectors (mtx)", 15)
@@ -637,6 +639,156 @@ func runC16R9(c *eng.Ctx, r *eng.RuleCtx) {
 				r.Check(enforced(pr), construct, n.Node.Pos(), "enforced by ValidateMetricOperation",
 					fmt.Sprintf("the arm that applies action '%s' runs only when %s is set, but ValidateMetricOperation accepts the operation without it: the batch passes validation, is partly applied and then fails (or the operation is silently skipped)", pr.action, pr.field))
 			}
+		}
+	}
+}
+
+// runC16R9Actions: the action table. Which actions an applier (ungrouped: sendBatchV0, grouped:
+// applyGroupOperations) performs is read from the applier: assuming Action == a, the deprecated set/add shortcuts
+// absent and value/buckets present, does an iteration of its loop over the operations reach a mutation of the
+// metrics? Every (group kind, action) that the applier does not perform must be rejected by the validator: assuming
+// that action and that group kind, every path through ValidateMetricOperation records an error. Otherwise the batch
+// passes validation and the operation is dropped silently (grouped) or fails after part of the batch was applied.
+func runC16R9Actions(c *eng.Ctx, r *eng.RuleCtx) {
+	p := c.P
+	action := p.Field(pkgMOp, "MetricOperation", "Action")
+	group := p.Field(pkgMOp, "MetricOperation", "Group")
+	vf, _ := p.Object(pkgMOp, "ValidateMetricOperation").(*types.Func)
+	if action == nil || group == nil || vf == nil {
+		return
+	}
+	v := p.FuncOf(vf)
+	vinfo := v.Pkg.TypesInfo
+	vg := p.GraphOf(v)
+	// the universe of actions: every constant compared with Action anywhere in the validator or the appliers, "" and
+	// one string nobody mentions
+	universe := map[string]bool{"": true, "<another>": true}
+	collect := func(f *eng.Func) {
+		g := p.GraphOf(f)
+		info := f.Pkg.TypesInfo
+		for _, n := range g.Nodes {
+			for _, e := range n.Succ {
+				for _, fc := range g.EdgeFacts(e) {
+					x, y, _, ok := eng.EqAtom(fc)
+					if !ok {
+						continue
+					}
+					if !eng.IsField(info, x, action) {
+						x, y = y, x
+					}
+					if eng.IsField(info, x, action) {
+						if k, isC := eng.ConstStr(info, y); isC {
+							universe[k] = true
+						}
+					}
+				}
+			}
+		}
+	}
+	collect(v)
+	scenario := func(info *types.Info, a string, grp int, forApplier bool) func(eng.Fact) bool {
+		return func(fc eng.Fact) bool {
+			x, y, eq, ok := eng.EqAtom(fc)
+			if !ok {
+				return false
+			}
+			for i := 0; i < 2; i++ {
+				if eng.IsField(info, x, action) {
+					if k, isC := eng.ConstStr(info, y); isC {
+						return (k == a) == eq
+					}
+				}
+				if grp != 0 && eng.IsField(info, x, group) {
+					if k, isC := eng.ConstStr(info, y); isC && k == "" {
+						return (grp > 0) == !eq // grp > 0: a group is set
+					}
+				}
+				if forApplier && eng.IsNil(info, y) {
+					if s, isS := ast.Unparen(x).(*ast.SelectorExpr); isS {
+						switch s.Sel.Name {
+						case "Set", "Add":
+							return eq // the shortcuts are absent
+						case "Value", "Buckets":
+							return !eq // what the action needs is present
+						}
+					}
+				}
+				x, y = y, x
+			}
+			return false
+		}
+	}
+	isAppend := func(n *eng.GNode) bool {
+		as, ok := n.Node.(*ast.AssignStmt)
+		if !ok || len(as.Rhs) != 1 {
+			return false
+		}
+		cl, isC := ast.Unparen(as.Rhs[0]).(*ast.CallExpr)
+		if !isC {
+			return false
+		}
+		o := eng.CalleeOf(vinfo, cl)
+		return o != nil && o.Name() == "Append"
+	}
+	for _, ap := range []struct {
+		key  string
+		grp  int
+		name string
+	}{{pkgMStor + ".(*MetricStorage).sendBatchV0", -1, "without a group"}, {pkgMStor + ".(*MetricStorage).applyGroupOperations", 1, "in a group"}} {
+		f := r.NeedFunc(ap.key)
+		if f == nil {
+			continue
+		}
+		collect(f)
+		info := f.Pkg.TypesInfo
+		g := p.GraphOf(f)
+		var loop ast.Stmt
+		sigF := f.Obj.Type().(*types.Signature)
+		isPrm := func(x ast.Expr) bool {
+			o := eng.SelObj(info, x)
+			for i := 0; i < sigF.Params().Len(); i++ {
+				if o == types.Object(sigF.Params().At(i)) {
+					return true
+				}
+			}
+			return false
+		}
+		for _, el := range elemLoopsOver(info, f.Decl.Body, isPrm) {
+			loop = el.Stmt
+		}
+		entry := (*eng.GNode)(nil)
+		if loop != nil {
+			entry = loopBodyEntryOf(g, loop)
+		}
+		if entry == nil {
+			r.Unknown(f.Key+" action table", f.Decl.Pos(), "no loop over the operations found")
+			continue
+		}
+		isApply := func(n *eng.GNode) bool {
+			return len(g.CallsAt(n, func(o types.Object, _ *ast.CallExpr) bool {
+				return isMetricMutator(o) || (o != nil && o.Name() == "ExpireGroupMetrics")
+			})) > 0
+		}
+		var acts []string
+		for a := range universe {
+			acts = append(acts, a)
+		}
+		sort.Strings(acts)
+		for _, a := range acts {
+			as := scenario(info, a, 0, true)
+			performed := false
+			for n := range g.Reach(eng.Query{From: []*eng.GNode{entry}, Assume: as, AvoidEdge: g.Infeasible(as), AvoidNode: isLoopHeadOf(loop)}) {
+				if isApply(n) {
+					performed = true
+				}
+			}
+			if performed {
+				continue
+			}
+			vs := scenario(vinfo, a, ap.grp, false)
+			bad := vg.MustPassToExit(eng.Query{FromEntry: true, Assume: vs, AvoidEdge: vg.Infeasible(vs)}, isAppend)
+			r.Check(bad == nil, fmt.Sprintf("validator rejects action=%q %s", a, ap.name), v.Decl.Pos(), "not applied by "+f.Key+", rejected by ValidateMetricOperation",
+				fmt.Sprintf("action %q %s is not applied by %s but ValidateMetricOperation can accept it: the batch passes validation and the operation is dropped, or fails after part of the batch was applied", a, ap.name, f.Key))
 		}
 	}
 }
